@@ -51,8 +51,8 @@ KEY_RK4_QUAT = ("RK4 is only second-order accurate for ball/free joint orientati
                 "without the Lie-group (dexp^-1) correction, so energy/momentum drift shrinks like h^2")
 KEY_STAGE_ENERGY = ("after mj_step with RK4, mjData.energy is the energy of the last Runge-Kutta stage, not of the previous state "
                     "(mj_forwardSkip recomputes energy although skipsensor=1)")
-QUAT_OVERALL = 8.0        # a drift that still converges (first/last tested drift >= 8, i.e. average order >= 1) in a model with quaternion
-                          # joints is attributed to KEY_RK4_QUAT; a drift that does not shrink (a conservation bug) is reported separately
+QUAT_OVERALL = 3.0        # a drift that still converges (on average >= 3x per halving of h) in a model with quaternion joints is
+                          # attributed to KEY_RK4_QUAT; a drift that does not shrink (a conservation bug) is reported separately
 K_LIN = 'stiffness="1.5" springref="0.2"'
 K_POLY = 'stiffness="1.2 0.8 0.6" springref="-0.15"'
 
@@ -171,6 +171,20 @@ def static_checks(lib, part, m, d, mi, ident, xml, gravity_on, spring):
             if abs(E[0] - V) > TOL * (1e-3 + abs(V)):
                 bad("energy[0] != gravity + spring potential", "%r vs %r" % (float(E[0]), V), rp)
             if vi:
+                # engine's subtree momenta of every tree vs numpy (any root joint type, gravity irrelevant)
+                lib.mj_subtreeVel(m, d)
+                mm = momenta(lib, m, mi, d)
+                slv = np.array(d.subtree_linvel).reshape(-1, 3)
+                sam = np.array(d.subtree_angmom).reshape(-1, 3)
+                scom = np.array(d.subtree_com).reshape(-1, 3)
+                for b, r in mm.items():
+                    com = r["mx"] / r["mass"]
+                    if relerr(slv[b] * r["mass"], r["P"], atol=1e-3) > TOL:
+                        bad("subtree_linvel*mass != linear momentum", "%s vs %s" % (slv[b] * r["mass"], r["P"]), rp)
+                    if relerr(sam[b], r["L"] - np.cross(com, r["P"]), atol=1e-3) > TOL:
+                        bad("subtree_angmom != angular momentum about subtree com", "%s vs %s" % (sam[b], r["L"] - np.cross(com, r["P"])), rp)
+                    if relerr(scom[b], com, atol=1e-3) > TOL:
+                        bad("subtree_com != sum m x / sum m", "%s vs %s" % (scom[b], com), rp)
                 continue
             # force == -grad potential (v = 0: qfrc_bias is minus the gravity force)
             frc = np.array(d.qfrc_spring) - np.array(d.qfrc_bias)
@@ -249,8 +263,11 @@ def _stat(row):
 
 
 def converges(errs, floor):
-    t = [e for e in errs if e > floor]
-    return len(t) >= 2 and t[0] / t[-1] >= QUAT_OVERALL
+    """the drift shrinks on average by >= 3 per halving of h (order >= ~1.6) from the first step size above the floor to the finest"""
+    for i0, e in enumerate(errs[:-1]):
+        if e > floor:
+            return e / max(errs[-1], 1e-300) >= QUAT_OVERALL ** (len(errs) - 1 - i0)
+    return False
 
 
 def order_ok(errs, floor):
